@@ -190,6 +190,13 @@ func main() {
 					switch f := x.Fun.(type) {
 					case *ast.Ident:
 						F.calls[f.Name] = true
+						// append(p..., x) where p is (part of) a program value handed to the engine: when the slice has spare capacity this writes
+						// into the backing array every goroutine running that program shares
+						if f.Name == "append" && len(x.Args) > 0 && pkg == "engine" {
+							if rootID, _ := rootIdent(x.Args[0]); rootID != nil && progParams[rootID.Name] && rootID.Obj != nil {
+								F.progWrite = append(F.progWrite, fmt.Sprintf("%s.%s: append(%s, ...)", pkg, name, exprString(x.Args[0])))
+							}
+						}
 					case *ast.SelectorExpr:
 						F.calls[f.Sel.Name] = true
 						if id, ok := f.X.(*ast.Ident); ok && id.Obj == nil {
